@@ -2,6 +2,7 @@
   C08 — Subqueries compose: FROM (subquery) / IN (subquery) equal materialised forms.
 -/
 import BqlVerif.Model.Compile
+import BqlVerif.Proofs.SubqLemmas
 set_option autoImplicit false
 namespace Bql.C08
 
@@ -48,53 +49,87 @@ theorem C08_not_in_dual (env : AggEnv) (row : Row) (l : CExpr) (vals : List Valu
 theorem C08_subquery_table_names (desc : List (String × Ty)) (rows : List Row)
     (hnd : (desc.map (·.1)).Nodup) :
     (subqueryTable desc rows).cols = desc.zipIdx.map (fun p => (p.1.1, p.2, p.1.2)) ∧
-    (subqueryTable desc rows).rows = rows := by
-  refine ⟨?_, rfl⟩
-  unfold subqueryTable
-  simp only
-  -- generalised over the already inserted prefix
-  have key : ∀ (l : List ((String × Ty) × Nat)) (acc : List (String × Nat × Ty)),
-      (∀ p ∈ l, ∀ c ∈ acc, c.1 ≠ p.1.1) → (l.map (·.1.1)).Nodup →
-      l.foldl (fun acc p => upsertCol acc p.1.1 p.2 p.1.2) acc = acc ++ l.map (fun p => (p.1.1, p.2, p.1.2)) := by
-    intro l
-    induction l with
-    | nil => intro acc _ _; simp
-    | cons p rest ih =>
-      intro acc hfresh hnd
-      simp only [List.foldl_cons, List.map_cons]
-      have hnot : acc.any (fun c => c.1 == p.1.1) = false := by
-        rw [List.any_eq_false]
-        intro c hc
-        have := hfresh p (List.mem_cons_self ..) c hc
-        simp [this]
-      have hup : upsertCol acc p.1.1 p.2 p.1.2 = acc ++ [(p.1.1, p.2, p.1.2)] := by
-        simp [upsertCol, hnot]
-      rw [hup, ih]
-      · simp
-      · intro q hq c hc
-        rcases List.mem_append.mp hc with hc | hc
-        · exact hfresh q (List.mem_cons_of_mem _ hq) c hc
-        · simp at hc
-          subst hc
-          simp only
-          have := (List.nodup_cons.mp hnd).1
-          intro heq
-          exact this (List.mem_map.mpr ⟨q, hq, heq.symm⟩)
-      · exact (List.nodup_cons.mp hnd).2
-  have h := key desc.zipIdx [] (by simp) (by
-    have : desc.zipIdx.map (·.1.1) = desc.map (·.1) := by
-      have h1 : desc.zipIdx.map (·.1) = desc := List.zipIdx_map_fst 0 desc
-      have h2 : desc.zipIdx.map (·.1.1) = (desc.zipIdx.map (·.1)).map (·.1) := by
-        rw [List.map_map]; rfl
-      rw [h2, h1]
-    rw [this]; exact hnd)
-  simpa using h
+    (subqueryTable desc rows).rows = rows :=
+  ⟨subqueryTable_cols desc rows hnd, rfl⟩
 
 /-- with duplicate output names the later one wins and a column is lost (why `SELECT * FROM (q)`
     equals `q` only for distinct names) -/
 example : (subqueryTable [("x", .int), ("x", .str)] []).cols = [("x", 1, .str)] := by rfl
 
+/-- **the compiler produces that node**: `x IN (SELECT ...)` / `x NOT IN (SELECT ...)` compile to the membership test
+    over the values of the subquery's single output column, in row order (and to the NULL constant for no rows) -/
+theorem C08_in_subquery_compiles (ctx : Ctx) (tbl : TableDef) (subq : Select → CM SubResult) (op : BinOp)
+    (l : Expr) (q : Select) (h h1 : Nat) (cl : CExpr) (cq : CQuery) (desc : List (String × Ty)) (rows : List Row)
+    (hop : op = .in ∨ op = .notin)
+    (hl : compileExpr ctx tbl subq l h = .ok (cl, h1))
+    (hq : subq q = .ok (.query cq)) (hone : cq.description.length = 1)
+    (he : execSelect cq = .ok (desc, rows)) :
+    compileExpr ctx tbl subq (.binop op l (.sub q)) h = .ok (inSubqueryNode op cl (rows.map (fun r => r.headD .null)), h1) := by
+  rcases hop with rfl | rfl <;> simp [compileExpr, hl, hq, hone, he, inSubqueryNode]
+
+/-- a subquery with more than one output column on the right of IN is a compilation error -/
+theorem C08_in_subquery_single_column (ctx : Ctx) (tbl : TableDef) (subq : Select → CM SubResult)
+    (l : Expr) (q : Select) (h h1 : Nat) (cl : CExpr) (cq : CQuery)
+    (hl : compileExpr ctx tbl subq l h = .ok (cl, h1))
+    (hq : subq q = .ok (.query cq)) (hmany : cq.description.length ≠ 1) :
+    compileExpr ctx tbl subq (.binop .in l (.sub q)) h = .error (.compile "subquery has too many columns") := by
+  simp [compileExpr, hl, hq, hmany]
+
+/-- **FROM (subquery) = the outer query over the materialised result**: for every outer statement (any targets, WHERE,
+    GROUP BY, HAVING, ORDER BY, PIVOT BY, LIMIT, DISTINCT) and every inner query `q` (itself arbitrary, nested to any
+    depth) that compiles and executes to `(desc, rows)`, compiling the outer statement with `FROM (q)` is compiling it
+    with the table `subqueryTable desc rows` as the current table -/
+theorem C08_from_subquery_materialised (ctx : Ctx) (fuel : Nat) (outer : TableDef) (q : Select) (cq : CQuery)
+    (desc : List (String × Ty)) (rows : List Row)
+    (t : Option (List Target)) (w : Option Expr) (g : List KeyRef) (h : Option Expr) (o : List (KeyRef × Bool))
+    (p : List KeyRef) (l : Option Nat) (d : Bool)
+    (hc : compileSelect ctx fuel outer q = .ok (.query cq))
+    (he : execSelect cq = .ok (desc, rows)) :
+    compileSelect ctx (fuel + 1) outer (.mk t (.sub q) w g h o p l d) =
+    compileSelect ctx (fuel + 1) (subqueryTable desc rows) (.mk t .none w g h o p l d) :=
+  compile_from_sub ctx fuel outer q cq desc rows t w g h o p l d hc he
+
+/-- **`SELECT * FROM (q)` returns q's rows and description unchanged**, for every inner query whose output names are
+    distinct (and not empty: the executor drops targets with an empty name) -/
+theorem C08_star_from_subquery (ctx : Ctx) (fuel : Nat) (outer : TableDef) (q : Select) (cq : CQuery)
+    (desc : List (String × Ty)) (rows : List Row)
+    (hc : compileSelect ctx fuel outer q = .ok (.query cq))
+    (he : execSelect cq = .ok (desc, rows))
+    (hnd : (desc.map (·.1)).Nodup) (hne : ∀ d ∈ desc, d.1 ≠ "") :
+    ∃ cq', compileSelect ctx (fuel + 1) outer (starOver q) = .ok (.query cq') ∧ execSelect cq' = .ok (desc, rows) :=
+  ⟨starQuery desc rows, compile_star_sub ctx fuel outer q cq desc rows hc he hnd,
+   exec_starQuery desc rows hne (execSelect_width cq desc rows he hne)⟩
+
+/-- rows of any query are as wide as its description (what makes the positional accessors of the subquery table total) -/
+theorem C08_rows_match_description (cq : CQuery) (desc : List (String × Ty)) (rows : List Row)
+    (he : execSelect cq = .ok (desc, rows)) (hne : ∀ d ∈ desc, d.1 ≠ "") :
+    ∀ r ∈ rows, r.length = desc.length := execSelect_width cq desc rows he hne
+
 /-! ### non-vacuity -/
+def demoDb : List TableDef :=
+  [{ name := "t", cols := [("i", 0, .int), ("s", 1, .str)], wildcard := ["i", "s"],
+     rows := [[.int 1, .str "a"], [.int 2, .str "b"], [.int 3, .str "a"]] }]
+def demoInner : Select :=   -- SELECT s, i FROM #t WHERE i > 1 ORDER BY i DESC
+  .mk (some [.mk (.col "s") none "s", .mk (.col "i") none "i"]) (.table "t")
+    (some (.binop .gt (.col "i") (.const (.int 1)))) [] none [(.expr (.col "i"), true)] [] none false
+/-- the hypotheses of `C08_star_from_subquery` / `C08_from_subquery_materialised` hold for this inner query (it compiles,
+    executes to two rows under distinct non-empty names), and the conclusion is observed -/
+def demoHyps (fuel : Nat) : Bool :=
+  match compileSelect ⟨demoDb, .none, []⟩ fuel (defaultTable demoDb) demoInner with
+  | .ok (.query cq) =>
+    (match execSelect cq with
+     | .ok (desc, rows) => desc.map (·.1) == ["s", "i"] && rows.length == 2 && rows.all (·.length == 2)
+     | _ => false)
+  | _ => false
+example : demoHyps 3 = true := by decide +kernel
+def demoStar (fuel : Nat) : Bool :=
+  match compileSelect ⟨demoDb, .none, []⟩ (fuel + 1) (defaultTable demoDb) (starOver demoInner) with
+  | .ok (.query cq) =>
+    (match execSelect cq with
+     | .ok (desc, rows) => desc.map (·.1) == ["s", "i"] && rows.map (·.length) == [2, 2]
+     | _ => false)
+  | _ => false
+example : demoStar 3 = true := by decide +kernel
 example : eval [] [.int 2] (inSubqueryNode .in (.col 0 "i" .int) [.int 1, .int 2]) = .ok (.bool true) := by rfl
 example : eval [] [.null] (inSubqueryNode .in (.col 0 "i" .int) [.int 1]) = .ok .null := by rfl
 example : eval [] [.int 2] (inSubqueryNode .notin (.col 0 "i" .int) []) = .ok .null := by rfl
